@@ -1,7 +1,8 @@
 (* C07 — decoding never hangs or crashes: any bytes give a result or the library error. *)
 From Coq Require Import List Arith NArith ZArith.
 Require Import CU.model.Prim CU.model.Types CU.model.Unicode CU.model.Codec CU.model.Dates CU.model.Iso CU.model.Block CU.model.Vbs CU.model.Ipm.
-Require Import CU.spec.IsoSpec CU.proofs.IsoFraming CU.proofs.IsoTotal.
+Require Import CU.model.Tools.
+Require Import CU.spec.IsoSpec CU.proofs.IsoFraming CU.proofs.IsoTotal CU.proofs.ToolsTotal.
 Require CU.gen.GenConfig.
 Import ListNotations.
 
@@ -42,6 +43,13 @@ Theorem C07_ipm_reader_total : forall B maxlen cfg cd f blocked, 0 < B -> has_le
   benign (iread_all B maxlen cfg cd f blocked).
 Proof. exact c07_ipm_reader_total. Qed.
 Print Assumptions C07_ipm_reader_total.
+
+(* the reading tools (mci_ipm_to_csv, mideu extract: rows of the requested columns for every record of the file) catch only
+   the library's data error: for every file content they end with rows or with that error, never with another exception *)
+Theorem C07_tools_total : forall B maxlen cfg cd blocked cols f, 0 < B -> has_lengths cfg -> de43_on_text cfg ->
+  benign (ipm_to_rows B maxlen cfg cd blocked cols f).
+Proof. exact c07_tools_total. Qed.
+Print Assumptions C07_tools_total.
 
 (* the packaged configuration is such a configuration (generated obligation, re-proved on every run) *)
 Theorem C07_packaged_sane : has_lengths CU.gen.GenConfig.packaged_bit_config /\ de43_on_text CU.gen.GenConfig.packaged_bit_config.
